@@ -1,5 +1,102 @@
-import ProductMD.Model.ComposeInfo
+import ProductMD.Proofs.CITop
+/-!
+# C01 — composeinfo survives a write/read cycle unchanged
+
+Model: `Model/ComposeInfo.lean` (typed records, nested-inductive variant forest; `serialize`/`deserialize` mirror
+`productmd/composeinfo.py` for the current format, validators = the rule lists generated from the source).
+-/
 namespace PM
 open CI
-theorem C01_placeholder : True := trivial
+
+/-- all UIDs of the forest are different (decidable) -/
+def CI.UidsDistinct (ci : ComposeInfo) : Prop := (uidsL ci.variants).Nodup
+
+instance (ci : ComposeInfo) : Decidable (CI.UidsDistinct ci) := by unfold CI.UidsDistinct; infer_instance
+
+/-- dict keys are the variant ids and no dict holds a key twice, at every level (what `add()` produces) -/
+def CI.WellKeyed (ci : ComposeInfo) : Prop := wellKeyedTop ci.variants = true
+
+instance (ci : ComposeInfo) : Decidable (CI.WellKeyed ci) := by unfold CI.WellKeyed; infer_instance
+
+/-- **Read-back.** Whatever the writer agrees to write is read back as the normal form of what was written:
+every section, every variant at any depth with its fields, arches, paths, release and children. -/
+theorem C01_readback (ci : ComposeInfo) (j : PyVal) (hk : WellKeyed ci) (hu : UidsDistinct ci) :
+    serialize ci = .ok j → deserialize j = .ok ci.norm := by
+  intro h
+  unfold serialize at h
+  split at h
+  · cases h
+  · rename_i hH
+    split at h
+    · cases h
+    · rename_i hC
+      split at h
+      · cases h
+      · rename_i hR
+        split at h
+        · cases h
+        · rename_i hB
+          split at h
+          · cases h
+          · rename_i d hV
+            cases h
+            unfold variantsSer at hV
+            split at hV
+            · cases hV
+            · have hv10 := version_not_lt_1_0
+              have hv03 := verLt_0_3_of Gen.VERSION hv10
+              obtain ⟨compose, release, base, variants⟩ := ci
+              simp only at hH hC hR hB hV hk hu ⊢
+              unfold deserialize
+              rw [headerDe_ok _ hH]
+              simp only [sub, PyVal.get?, List.find?_cons]
+              simp only [show ((k%"header" : Str) == k%"payload") = false by decide, show ((k%"payload" : Str) == k%"payload") = true by decide,
+                Option.map_some, List.cons_append, List.nil_append]
+              rw [composeDe_ok _ hv03.1 compose _ hC]
+              cases hlay : release.isLayered with
+              | false =>
+                have hnl : release.norm.isLayered = false := by simp [Release.norm, hlay]
+                rw [releaseDe_ok _ hv03.2 release _ (by simp [PyVal.get?]) hR]
+                simp only [baseDeIf, hnl]
+                rw [variantsDe_ok _ hv10 variants d _ (by simp [PyVal.get?]) hV hk hu]
+                simp [ComposeInfo.norm, hlay]
+              | true =>
+                have hnl : release.norm.isLayered = true := by simp [Release.norm, hlay]
+                simp only [hlay, if_true] at hB
+                cases base with
+                | none =>
+                  have := blank_base_invalid
+                  rw [hB] at this
+                  simp [isOk] at this
+                | some b =>
+                  rw [releaseDe_ok _ hv03.2 release _ (by simp [PyVal.get?]) hR]
+                  simp only [baseDeIf, hnl, if_true]
+                  rw [baseDe_ok b _ (by simp [PyVal.get?]) hB]
+                  rw [variantsDe_ok _ hv10 variants d _ (by simp [PyVal.get?]) hV hk hu]
+                  simp [ComposeInfo.norm, hlay]
+
+/-! ### non-vacuity: a layered compose with a label, a depth-3 forest, a layered-product variant with its own release,
+a dashed top-level UID, stray and empty paths -/
+def CI.exRelease : Release := { name := k%"Fedora", short := k%"F", version := k%"22", type := k%"ga", isLayered := true, internal := true }
+def CI.exCI : ComposeInfo :=
+  { compose := { id := k%"F-22-20150522.n.0", type := k%"nightly", date := k%"20150522", respin := 0, label := some k%"RC-1.0", final := true },
+    release := exRelease,
+    base := some { name := k%"Base", short := k%"b", version := k%"7.1", type := k%"eus" },
+    variants :=
+      [.mk k%"Server" k%"Server" k%"Server" k%"Server" k%"variant" [k%"x86_64", k%"i386"]
+          [(k%"os_tree", [(k%"x86_64", k%"Server/x86_64/os"), (k%"ppc64", k%"stray"), (k%"i386", [])]),
+           (k%"debug_repository", [(k%"i386", k%"Server/i386/debug")])] none
+          [.mk k%"optional" k%"optional" k%"Server-optional" k%"opt" k%"optional" [k%"x86_64"] [] none
+             [.mk k%"LP" k%"LP" k%"Server-optional-LP" k%"lp" k%"layered-product" [k%"x86_64"] []
+                (some { exRelease with isLayered := false, type := k%"updates" }) []],
+           .mk k%"HA" k%"HA" k%"Server-HA" k%"ha" k%"addon" [k%"i386"] [] none []],
+       .mk k%"ClientX" k%"ClientX" k%"Client-X" k%"Client" k%"variant" [k%"x86_64"] [] none []] }
+
+example : WellKeyed exCI ∧ UidsDistinct exCI ∧ isOk (serialize exCI) = true := by decide +kernel
+example : exCI.norm ≠ exCI := by
+  intro h
+  have := congrArg (fun c => (c.variants.map Variant.uid)) h
+  revert this
+  decide +kernel
+
 end PM
